@@ -10,9 +10,11 @@ import (
 	"os"
 
 	"github.com/mimiro-io/datahub/internal/server"
+	"github.com/mimiro-io/datahub/internal/web"
 )
 
 func main() {
+	server.VerifC07HTTP = web.VerifC07HTTP
 	dir := os.Args[1]
 	in := bufio.NewScanner(os.Stdin)
 	in.Buffer(make([]byte, 1<<20), 1<<28)
